@@ -20,6 +20,11 @@ var errNegativeSeek = errors.New("unixfsnode/file: seek: negative position")
 // to file data.
 func NewUnixFSFile(ctx context.Context, substrate ipld.Node, lsys *ipld.LinkSystem) (LargeBytesNode, error) {
 	if substrate.Kind() == ipld.Kind_Bytes {
+		if lbn, ok := substrate.(LargeBytesNode); ok {
+			// already a file node (e.g. loaded through a LinkSystem whose NodeReifier
+			// is Reify): use it as it is rather than reading all of it as one block.
+			return lbn, nil
+		}
 		// A raw / single-node file.
 		return &singleNodeFile{Node: substrate}, nil
 	}
